@@ -3,7 +3,7 @@
 
    Abstract sliding window (the statement): the events [t, n] seen so far; at time now
    the trailing window of length W holds those with t >= now - W; a limiter with
-   per-second rate r is exceeded when  sum * 1000 > r * W  (times in milliseconds).
+   per-second rate r is exceeded when  sum * ups > r * W  (ups time units per second).
 
    Code-shaped model of packetlimiter.counter: a ring buffer (times, counts, head,
    tail, total, minTime) with expire / add / resize (initial capacity scaled down so
@@ -31,8 +31,8 @@ SumFrom(evs, lo) == IF evs = <<>> THEN 0
 SumIncl(evs, now, w) == SumFrom(evs, now - w)          \* window [now - w, now]
 SumExcl(evs, now, w) == SumFrom(evs, now - w + 1)      \* window (now - w, now]
 Keep(evs0, now, w) == LET evs == evs0 IN SelectSeq(evs, LAMBDA e : e.t >= now - w)
-\* rate r per second, window w and times in milliseconds
-Exceeded(sum, r, w) == sum * 1000 > r * w
+\* rate r per second; window w and times in units of which ups make a second (1000: ms, 1000000: us)
+Exceeded(sum, r, w, ups) == sum * ups > r * w
 
 ----------------------------------------------------------------------------
 (* ring buffer; indices are 0-based as in the code, sequences 1-based *)
